@@ -23,12 +23,13 @@ TRUSTED = ("CPython ast", "S1 layout", "assumption A1 (mesh variables of type d)
 TECHNIQUE = "static analysis: polynomial byte-effect identities between sibling branches; finite-case folding of the selection logic"
 
 from . import loader_folds as lfold
+from . import layout_folds as lay
 
 
 def r1(run, tree):
     run.rule("C13.R1", "skip = read, in bytes (mesh blocks, step_over, particle header)", "D1 + sibling agreement", "", floor=12)
-    io.check_bodies(run, tree)
-    io.check_part_header(run, tree, only_read_vs_skip=True)
+    lay.check_bodies(run, tree)
+    lay.check_part_header(run, tree, only_read_vs_skip=True)
 
 
 def r2(run, tree):
